@@ -418,3 +418,56 @@ pub fn eval_replay(r: &Replay) -> EvalOut {
     let vs = if r.property == "C19" { check_c19(&sc, r.run_seed, r.mode == "plan-thorough", None) } else { check_c20(&sc, r.run_seed, None) };
     EvalOut { violations: vs, digest: 0, trace: vec![], steps: 0 }
 }
+
+// ------------------------------------------------------------------------------------------------
+// cross-build digests
+
+/// The scenario the cross-build comparison uses for a seed (no async, no faults: every build
+/// must be able to run it).
+pub fn xscenario(prop: &str, seed: u64) -> Option<Scenario> {
+    let mut sc = gen_for(if prop == "C05" { "C05" } else { "C19" }, seed);
+    if sc.asyncd {
+        return None;
+    }
+    sc.faults.clear();
+    sc.lifecycle.clear();
+    sc.from_pool = None;
+    Some(sc)
+}
+
+/// (canonical layout, layout digest, digest of the world and system states after the scenario's
+/// calls dispatched sequentially)
+pub fn xdigest(sc: &Scenario) -> (String, u64, u64) {
+    let mut b = build_plain(sc);
+    let c = canon(&b);
+    let ld = fnv(c.as_bytes());
+    let mut s2 = sc.clone();
+    s2.calls = sc
+        .calls
+        .iter()
+        .flat_map(|c| match c {
+            Call::Dispatch => vec![Call::DispatchSeq, Call::DispatchTl],
+            Call::DispatchPar => vec![Call::DispatchSeq],
+            x => vec![*x],
+        })
+        .collect();
+    let ro = crate::run::run_calls(&mut b, &s2, &StratSpec::NoPreempt, 0, None);
+    let mut h = 0xcbf2_9ce4_8422_2325u64;
+    let mut eat = |x: u64| {
+        h ^= x;
+        h = h.wrapping_mul(0x0000_0100_0000_01b3);
+    };
+    for w in &ro.final_world {
+        eat(w.map(|c| c.v).unwrap_or(u64::MAX));
+    }
+    for s in &ro.final_states {
+        eat(*s);
+    }
+    for o in &ro.obs {
+        for x in o {
+            eat(*x);
+        }
+    }
+    crate::dfamily::eval_dispose(b);
+    (c, ld, h)
+}
